@@ -1,7 +1,7 @@
 (* Props/C02.v — property theorems only. *)
 From Coq Require Import List NArith ZArith.
 From N0 Require Import Base.PyStr Base.PyVal Xpath.Dec Xpath.DecProofs Xpath.Token Xpath.TokenProofs
-  Xpath.Find Xpath.FindProofs Xpath.Write Xpath.SpecProofs Xpath.WalkProofs Xpath.SpellProofs Xpath.LongPathProofs.
+  Xpath.Find Xpath.FindProofs Xpath.Write Xpath.SpecProofs Xpath.WalkProofs Xpath.SpellProofs Xpath.LongPathProofs Xpath.PutPut.
 Import ListNotations.
 
 (* d[xpath] = v on a path that spells an existing node (by key, index, negative index;
@@ -32,6 +32,12 @@ Print Assumptions C02_get_put.
 Theorem C02_frame : forall t p q v, diverge p q -> resolve (replace_at t p v) q = resolve t q.
 Proof. exact resolve_replace_other. Qed.
 Print Assumptions C02_frame.
+
+(* the last write wins: assigning twice through the same path equals the second
+   assignment alone (with C02_get_put and C02_frame: the lens laws of the Spec) *)
+Theorem C02_put_put : forall t p v w, replace_at (replace_at t p v) p w = replace_at t p w.
+Proof. exact replace_replace. Qed.
+Print Assumptions C02_put_put.
 
 (* any finite sequence of such assignments, each addressing a node that exists when it is
    applied, equals the plain model that applied the same writes *)
